@@ -553,6 +553,12 @@ def _F(cx, a, k):
     lo, hi = prange(cx, inner)
     if -K <= lo and hi < K:
         return padd(out, cx.atom("S", pkey(inner), {"arg": inner, "sh": k}))
+    # the range straddles exactly one other multiple q 2^k: floor(inner / 2^k) == q + S(inner - q 2^k), the same sign atom
+    # that the balanced form of the shifted argument gets (floor((-1 - a + s) / 2^k) == -1 + S(2^k - 1 - a + s))
+    q = hi >> k
+    if (lo >> k) == q - 1:
+        sh_ = padd(inner, const(-q * K))
+        return padd(padd(out, const(q)), cx.atom("S", pkey(sh_), {"arg": sh_, "sh": k}))
     return padd(out, cx.atom("F", pkey(inner), {"arg": inner, "sh": k, "k": (k,)}))
 
 
@@ -1153,6 +1159,11 @@ def run_function(mod_text, fn, cx, params, layout, max_paths=64, max_steps=40000
                     return padd(const(W - 1), a, -1)
                 if is_const(b) and cval(b) == 0:
                     return a
+                # a low mask 2^k - 1 against a value known to lie below 2^k: the complement within k bits
+                if is_const(b) and cval(b) > 0 and cval(b) & (cval(b) + 1) == 0:
+                    ra = prange(cx, a)
+                    if ra[0] >= 0 and ra[1] <= cval(b):
+                        return padd(const(cval(b)), a, -1)
             if w == 1:
                 return padd(padd(x, y), pscale(pmul(x, y), 2), -1)
             kx, ky = pkey(x), pkey(y)
